@@ -963,7 +963,11 @@ def main():
         for k, v in out["seen_keys"].items():
             key_counts[k] += v
         for key, w in out["viol"]:
-            viols.setdefault(key, w)
+            # keep the simplest witness per key: native tuples before sort arrays, documents, writers, filter texts, CLI
+            w["workload"] = out["workload"]
+            prio = {"natives": 0, "sort-stress": 1, "documents": 2, "writers": 3, "filters": 4, "cli": 5}
+            if key not in viols or prio.get(w["workload"], 9) < prio.get(viols[key].get("workload"), 9):
+                viols[key] = w
         broken.extend(out["broken"])
         slow.extend(out["slow"])
         cli_cand.extend(out["cli_candidates"])
